@@ -638,6 +638,22 @@ def rule_r6(chk, prog):
                       'with the extension value'
         else:
             why = f'"{unparse(v)}" is not os.path.join(..., <name><ext>)'
+        # the stem has no "." of its own: os.path.splitext(<stem><ext>)[1]
+        # is <ext> for every extension, the empty one included (the
+        # extension value carries its dot)
+        if ok and isinstance(v, ast.Call) and v.args:
+            consts = [x.value for x in ast.walk(v.args[-1])
+                      if isinstance(x, ast.Constant) and isinstance(
+                          x.value, str)]
+            if any('.' in c_ for c_ in consts):
+                ok = False
+                why = (f'the stem of the candidate file name contains "." '
+                       f'({[c_ for c_ in consts if "." in c_][0]!r}): for '
+                       'an input without extension the candidates end in '
+                       '"." (or get an extension of their own) - a command '
+                       'that chooses its input language by extension does '
+                       'not see the golden behaviour on the identical '
+                       'candidate')
     chk.check('C09.R6', 'tmpfiles.get_tmp_filename', 'file name ends with '
               '__FILEEXT', ok, why, loc=t.loc(g), nontrivial=True)
     # __FILEEXT assigned only from splitext(infile)[1]
